@@ -149,4 +149,79 @@ Grid2DOK(c, r) ==
             /\ \A i \in XS : r.projxm[ToString(i)] = SumQ([j \in 1..(yhi - ylo + 1) |-> W(i, ylo + j - 1)])
             /\ DOMAIN r.projym = {ToString(j) : j \in YS}
             /\ \A j \in YS : r.projym[ToString(j)] = SumQ([i \in 1..(xhi - xlo + 1) |-> W(xlo + i - 1, j)])
+
+-----------------------------------------------------------------------------
+(* Accessors: what the scalar look-up methods return, as functions of the     *)
+(* abstract content (beyond the listed properties: the rest of the read-only   *)
+(* API).  xs are probe values, ks probe keys / indexes; positions are 0-based *)
+(* as in the library.                                                          *)
+SortedInts(S) == LET RECURSIVE Srt(_)
+                     Srt(T) == IF T = {} THEN <<>> ELSE LET m == MinOf(T) IN <<m>> \o Srt(T \ {m})
+                 IN Srt(S)
+(* optional values: None is <<>>, a value v is <<v>> (so that answers of either kind compare without a type error) *)
+None == <<>>
+Some(v) == <<v>>
+EntOrNone(f, key) == IF key \in DOMAIN f THEN Some(f[key].e) ELSE None
+
+AccExpect(c, xs, ks) ==
+  CASE c.k = "Bin" ->
+         LET n == Len(c.vals) E == ViewEdges(c) IN
+         [num |-> n, size |-> n,
+          binx |-> [i \in DOMAIN xs |-> LET x == xs[i] IN
+                      IF IsNaN(x) \/ Lt(x, c.lo) \/ Ge(x, c.hi) THEN -1
+                      ELSE LET b == BinIndex(c, x) IN IF b > n - 1 THEN n - 1 ELSE b],
+          underx |-> [i \in DOMAIN xs |-> ~IsNaN(xs[i]) /\ Lt(xs[i], c.lo)],
+          overx |-> [i \in DOMAIN xs |-> ~IsNaN(xs[i]) /\ Ge(xs[i], c.hi)],
+          nanx |-> [i \in DOMAIN xs |-> IsNaN(xs[i])],
+          ranges |-> [i \in 1..n |-> <<E[i], E[i + 1]>>]]
+    [] c.k = "SparselyBin" ->
+         LET S == SparseIdx(c)
+             L(i) == Add(c.origin, Mul(Q(i), c.width))
+         IN [numFilled |-> Cardinality(DOMAIN c.bins),
+             size |-> Cardinality(DOMAIN c.bins),
+             num |-> IF S = {} THEN 0 ELSE MaxOf(S) - MinOf(S) + 1,
+             minBin |-> IF S = {} THEN None ELSE Some(MinOf(S)),
+             maxBin |-> IF S = {} THEN None ELSE Some(MaxOf(S)),
+             low |-> IF S = {} THEN None ELSE Some(L(MinOf(S))),
+             high |-> IF S = {} THEN None ELSE Some(L(MaxOf(S) + 1)),
+             indexes |-> SortedInts(S),
+             binx |-> [i \in DOMAIN xs |-> FloorQ(Div(Sub(xs[i], c.origin), c.width))],   \* finite probes only
+             nanx |-> [i \in DOMAIN xs |-> IsNaN(xs[i])],
+             ranges |-> [i \in DOMAIN ks |-> <<L(ks[i]), L(ks[i] + 1)>>],
+             atent |-> [i \in DOMAIN ks |-> EntOrNone(c.bins, ToString(ks[i]))]]
+    [] c.k = "CentrallyBin" ->
+         LET n == Len(c.centers)
+             Nb(i) == <<IF i = 1 THEN None ELSE Some(c.centers[i - 1]), IF i = n THEN None ELSE Some(c.centers[i + 1])>>
+             E == ViewEdges(c)
+         IN [centers |-> c.centers, nb |-> n,
+             indexx |-> [i \in DOMAIN xs |-> CentralIndex(c.centers, xs[i]) - 1],
+             centerx |-> [i \in DOMAIN xs |-> c.centers[CentralIndex(c.centers, xs[i])]],
+             nanx |-> [i \in DOMAIN xs |-> IsNaN(xs[i])],
+             neighbors |-> [i \in 1..n |-> Nb(i)],
+             ranges |-> [i \in 1..n |-> <<E[i], E[i + 1]>>]]
+    [] c.k \in {"IrregularlyBin", "Stack"} ->
+         [thresholds |-> c.ths, nb |-> Len(c.bins), values |-> [i \in DOMAIN c.bins |-> c.bins[i].e]]
+    [] c.k = "Select" ->
+         [fractionPassing |-> IF c.e = Q(0) THEN None (* ZeroDivisionError *) ELSE Some(Div(c.cut.e, c.e))]
+    [] c.k = "Fraction" ->
+         [numerator |-> c.num.e, denominator |-> c.den.e]
+    [] c.k = "Categorize" ->
+         [size |-> Cardinality(DOMAIN c.bins), keys |-> DOMAIN c.bins,
+          getent |-> [i \in DOMAIN ks |-> EntOrNone(c.bins, ks[i])],
+          values |-> Cardinality(DOMAIN c.bins)]
+    [] c.k \in {"Label", "UntypedLabel"} ->
+         [size |-> Cardinality(DOMAIN c.pairs), keys |-> DOMAIN c.pairs,
+          getent |-> [i \in DOMAIN ks |-> EntOrNone(c.pairs, ks[i])]]
+    [] c.k \in {"Index", "Branch"} ->
+         [size |-> Len(c.vals),
+          getent |-> [i \in DOMAIN ks |-> IF ks[i] >= 0 /\ ks[i] < Len(c.vals) THEN Some(c.vals[ks[i] + 1].e) ELSE None]]
+    [] OTHER -> [none |-> TRUE]
+
+(* the recorded answers r (same field names; key collections as sets) against the expectation, field by field;   *)
+(* the set of fields that disagree                                                                                *)
+AccBad(c, xs, ks, r) ==
+  IF c.k = "SparselyBin" /\ ~(DOMAIN c.bins = {} \/ ViewableSparse(c)) THEN {} ELSE
+  LET X == AccExpect(c, xs, ks) IN
+  {f \in DOMAIN X \cap DOMAIN r :
+     IF f = "keys" THEN {r[f][i] : i \in DOMAIN r[f]} # X[f] \/ Len(r[f]) # Cardinality(X[f]) ELSE r[f] # X[f]}
 =============================================================================
